@@ -138,8 +138,14 @@ def run(chk: Check) -> None:
         if sc["existing"] == "partial" and sc["fault"] == "none" and not sc["pp"]:
             for variant in ("missing:root_init", "missing:models_init", "missing:client", "emptied"):
                 extra.append(dict(b, variant=variant))
+            # package markers on the chain of the core / of the ancestors: a run without force must not (re)create them either
+            if sc["core"] != "embedded":
+                extra.append(dict(b, variant="missing:core_init"))
         if sc["existing"] == "equal" and sc["fault"] == "none" and not sc["pp"] and sc["cwd"] == "elsewhere":
             extra.append(dict(b, variant="userfile"))
+            # an up-to-date tree whose top-level ancestor package lost its marker (a namespace package the user keeps that way):
+            # nothing the comparison looks at differs
+            extra.append(dict(b, variant="missing:ancestor_init"))
     # one large document (> 200 emitted .py files) for post-processed writing runs: tools that switch strategy on size
     big = big_document(230)
     for b in beh:
